@@ -680,7 +680,13 @@ void do_op(string op) {
     enable_commands();
     break;
   case "addx":    // add_action of this object's "x" to whoever is this_player() (used from init hooks)
-    add_action("cmd_x", "x");
+    // not between two objects that both have no environment: the driver takes "same (null) environment" for presence there,
+    // and destruct has no room to remove the sentence from (DESIGN.md 11.4, observations)
+    if (this_object() == this_player() || environment(this_object()) || (this_player() && environment(this_player())))
+      add_action("cmd_x", "x");
+    break;
+  case "rmx":     // remove_action of "x" from this_player() (legal anywhere; inside a verb function that returns 0 it is an error)
+    catch(remove_action("cmd_x", "x"));
     break;
   case "living":  // make this object a living one with the action "x"
     enable_commands();
